@@ -4,7 +4,7 @@ import os
 import re
 
 from mirlib import AnchorMissing, op_place, path_matches, is_bare, place_projs, strip_closure
-from helpers import (vexpr, arm, branches_on_call, enum_switches, edge_region, must_pass, origin_calls, aggregates, calls_matching,
+from helpers import (closure_of_arg, vexpr, arm, branches_on_call, enum_switches, edge_region, must_pass, origin_calls, aggregates, calls_matching,
                      field_accesses, ungated_reach, chain)
 import entrypoints
 import gating
@@ -81,30 +81,53 @@ def r_base_closure_memoised(r, prog):
     if not rec:
         raise AnchorMissing('the recursive computation of the base closure in Interface')
     for f in rec:
-        fam = [f] + [x for x in prog.fns.values() if x.path.startswith(f.path + '::{closure')]
-        selfcalls = [(g, c) for g in fam for c in g.calls() if (c.resolved or c.callee or '') in {x.path for x in rec} and not g.blocks[c.bb].get('cleanup')]
-        looks = branches_on_call(f, lambda c: c.name() in ('get', 'contains_key', 'contains', 'get_mut', 'entry'))
-        looks += [dict(b, true=b['some'], false=b['none']) for b in _option_branches(f, ('get', 'get_mut'))]
-        stores = [c for c in f.calls() if c.name() in ('insert',) and not f.blocks[c.bb].get('cleanup')]
-        ok = False
-        for b in looks:
-            tbl = vexpr(f, b['call'].args[0])
-            if not re.match(r'^arg\d', tbl):
-                continue
-            hit = b['true']
-            # recursion (directly in f, or the adapter call that runs the closure doing it) is not reachable from the hit edge
-            in_closure = any(g is not f for g, c in selfcalls)
-            rec_blocks = {c.bb for g, c in selfcalls if g is f} | ({c.bb for c in f.calls() if any(vexpr(f, a).startswith('closure(') for a in c.args)} if in_closure else set())
-            miss = f.reachable(b['false'], blocked=[b['bb']])
-            if rec_blocks and not (f.reachable(hit, blocked=[b['bb']]) & rec_blocks) and rec_blocks <= miss \
-                    and any(vexpr(f, s.args[0]) == tbl and s.bb in miss and s.bb not in f.reachable(hit, blocked=[b['bb']]) for s in stores):
-                ok = True
-        if ok:
+        if _recursion_memoised(prog, f, {x.path for x in rec}):
             r.ok('%s: the recursion is reached only when the table has no entry for this interface, and the result is stored in it' % f.name)
         else:
             r.finding('base-closure-not-memoised:%s' % f.name, f.span,
                       '%s recurses into the bases of every base without consulting a table of interfaces already expanded: an interface reachable through k inheritance paths is expanded k times (exponential on dense hierarchies)' % f.name)
     r.floor(1)
+
+
+def _recursion_memoised(prog, f, rec_paths):
+    """In f, every call back into the recursive component (directly, or through a closure f hands to an adapter) is reachable only off the hit
+    edge of a lookup in a table that comes in through a parameter, and the miss path stores into that table."""
+    fam = [f] + [x for x in prog.fns.values() if x.path.startswith(f.path + '::{closure')]
+    selfcalls = [(g, c) for g in fam for c in g.calls() if (c.resolved or c.callee or '') in rec_paths and not g.blocks[c.bb].get('cleanup')]
+    looks = branches_on_call(f, lambda c: c.name() in ('get', 'contains_key', 'contains', 'get_mut', 'entry'))
+    looks += [dict(b, true=b['some'], false=b['none']) for b in _option_branches(f, ('get', 'get_mut'))]
+    stores = [c for c in f.calls() if c.name() in ('insert',) and not f.blocks[c.bb].get('cleanup')]
+    for b in looks:
+        tbl = vexpr(f, b['call'].args[0])
+        if not re.match(r'^arg\d', tbl):
+            continue
+        hit = b['true']
+        in_closure = any(g is not f for g, c in selfcalls)
+        rec_blocks = {c.bb for g, c in selfcalls if g is f} | ({c.bb for c in f.calls() if any(vexpr(f, a).startswith('closure(') for a in c.args)
+                                                                  and any(closure_of_arg(prog, f, a) in [g for g, _ in selfcalls] for a in c.args)} if in_closure else set())
+        miss = f.reachable(b['false'], blocked=[b['bb']])
+        if rec_blocks and not (f.reachable(hit, blocked=[b['bb']]) & rec_blocks) and rec_blocks <= miss \
+                and any(vexpr(f, s.args[0]) == tbl and s.bb in miss and s.bb not in f.reachable(hit, blocked=[b['bb']]) for s in stores):
+            return True
+    return False
+
+
+def r_key_check_memoised(r, prog):
+    """The key-type check of a dictionary recurses through the fields of compact structs. A struct used by two fields of another struct is
+    reached along two paths; without a table of structs already checked the work doubles per level (a 26-level chain of two-field structs is
+    under 1 KB and takes minutes)."""
+    f = prog.fn('slicec::validators::dictionary::check_dictionary_key_type')
+    if _recursion_memoised(prog, f, {f.path}):
+        r.ok('check_dictionary_key_type checks the fields of a struct only when the table of checked structs has no entry for it, and stores the outcome')
+    else:
+        r.finding('key-check-not-memoised', f.span, 'check_dictionary_key_type recurses into the fields of a key struct without consulting a table of structs already checked: exponential on struct DAGs')
+    # the table does not outlive one dictionary
+    callers = [c for c in prog.callers_of(f.path) if c.fn.path != f.path and not c.fn.path.startswith(f.path + '::{closure')]
+    if callers and all(len(c.args) > 1 and re.match(r'^(new|default)\(\)$', vexpr(c.fn, c.args[1])) for c in callers):
+        r.ok('every outside caller starts with an empty table')
+    else:
+        r.finding('key-check-table-shared', f.span, 'the table of checked structs is not created afresh by the callers of check_dictionary_key_type (%s)' % [vexpr(c.fn, c.args[1])[:40] if len(c.args) > 1 else 'no table' for c in callers])
+    r.floor(2)
 
 
 def _option_branches(f, names):
@@ -459,6 +482,9 @@ def run(ctx):
     ctx.run_rule('C01.2e', 'T2', 'self-containing aliases rejected before any recursive walk over type expressions (argument of SCCs type_string, typeref_visit, cycle_detector, dictionary_key)', c05.r_alias_through_anonymous, prog)
     ctx.run_rule('C01.1b', 'T6', 'white space skipper and classifier of the directive lexer agree (argument of the "should have been skipped" panic)', r_whitespace_agreement, prog)
     ctx.run_rule('C01.2h', 'T8', 'the base closure of an interface is memoised: one expansion per interface, not one per inheritance path', r_base_closure_memoised, prog)
+    from props import c03 as _c03
+    ctx.run_rule('C01.1c', 'T1', 'the entry of a primitive type in the name table is never replaced (the parser unwraps its lookup of a primitive: argument of that panic-ledger entry)', _c03.r_name_table_single_writer, prog)
+    ctx.run_rule('C01.2i', 'T8', 'the dictionary key check looks at each struct once per dictionary, not once per path to it', r_key_check_memoised, prog)
     ctx.run_rule('C01.2f', 'T10', 'fresh search state per root; candidates scan on every path (argument of SCCs all_base_interfaces, cycle_detector)', c05.r_search_state_and_identity, prog)
     ctx.run_rule('C01.2g', 'T8', 'the reference directory walk enters every directory once (argument of SCC directory_walk)', _c17.r_directory_walk_once, prog)
     ctx.run_rule('C01.5b', 'T4', 'lints of a file that failed to parse cannot lead to dangling members (argument of the WeakPtr::borrow ledger entry)', r_failed_parse_scopes, prog)
